@@ -169,10 +169,10 @@ def neighbourhood(name, cfg, lg, i, n):
 def variants(name, cfg, lg):
     """yield (relation label, transformed logical, expectation kind, payload)"""
     rel = T[name]["rel"]
-    if lg.get("long"):
+    if lg.get("long") and not lg.get("perturb_at"):
         rel = tuple(r for r in rel if r != "local")
     if "voff" in rel:
-        for c in VOFF:
+        for c in VOFF + tuple(lg.get("voff_extra", ())):
             yield f"value-offset{c:+g}", dict(lg, x=sym_add(lg["x"], c)), "same", None
     if "neg" in rel:
         yield "negation", dict(lg, x=[s if s in (NAN, None) else -s for s in lg["x"]]), "same", None
@@ -199,9 +199,9 @@ def variants(name, cfg, lg):
         pos = G.SPECS[name]["kind"] == "position"
         n = len(lg["lon"]) if pos else len(lg["x"])
         al = T[name]["al"]
-        for i in range(n):
+        for i in (lg.get("perturb_at") or range(n)):
             cur = (lg["lon"][i], lg["lat"][i]) if pos else lg["x"][i]
-            for s in al:
+            for s in (al if not lg.get("perturb_at") else [a for a in al if a != cur][:2]):
                 if s == cur:
                     continue
                 if pos:
@@ -269,6 +269,32 @@ def replay(case):
     return check_case(case)[0]
 
 
+def xl_cases(name):
+    """very long records: (series, cfg, positions to perturb, extra value offsets)"""
+    big = (float(2 ** 30), -float(2 ** 31))
+    if name == "flat_line_test":
+        from .c11 import plateaus
+
+        x = plateaus(4000, [300, 600])
+        starts = [i for i in range(1, len(x)) if x[i] != x[i - 1]][:40:4]
+        yield x, dict(suspect_threshold=18000, fail_threshold=36000, tolerance=2), sorted({0, 1000, 1001, 2000, 3398, 3999, *starts}), big
+        yield list(alpha.xl(SIG4, 1500, 3)), T[name]["cfgs"][0], [0, 1, 700, 1023, 1024, 1499], big
+    elif name == "attenuated_signal_test":
+        x = list(alpha.xl(SIG4, 1500, 3))
+        yield x, T[name]["cfgs"][2], None, big          # whole-series std
+        yield x, T[name]["cfgs"][3], None, big          # whole-series range
+        yield x, T[name]["cfgs"][1], [0, 1, 700, 1023, 1024, 1499], big   # windowed range (exact)
+        yield x, T[name]["cfgs"][0], [0, 1, 700, 1023, 1024, 1499], ()    # windowed std: small offsets only
+    elif name in ("spike_test", "rate_of_change_test", "density_inversion_test", "gross_range_test", "valid_range_test"):
+        x = list(alpha.xl(tuple(T[name]["al"]), 1500, 3))
+        for cfg in T[name]["cfgs"]:
+            yield x, cfg, [0, 1, 511, 512, 1023, 1024, 1025, 1498, 1499], big
+    elif name in ("speed_test", "location_test"):
+        x = list(alpha.xl(POS, 1300, 2))
+        for cfg in T[name]["cfgs"]:
+            yield x, cfg, [0, 1, 499, 500, 501, 1023, 1024, 1299], ()
+
+
 def tasks(tier):
     ts = []
     for name, spec in T.items():
@@ -285,6 +311,14 @@ def run_task(task, acc):
     if ci < 0:
         series = [[], alpha.debruijn(tuple(spec["al"]), 3) * 3]
         cfgs = spec["cfgs"]
+        for x, cfg, perturb_at, voff_extra in xl_cases(name):
+            lg = logical(name, list(x))
+            lg["long"] = True
+            if perturb_at:
+                lg["perturb_at"] = perturb_at
+            if voff_extra:
+                lg["voff_extra"] = list(voff_extra)
+            _run_one(acc, name, cfg, lg)
     else:
         series = ([spec["al"][first], *rest] for k in range(1, n + 1) for rest in itertools.product(spec["al"], repeat=k - 1))
         cfgs = [spec["cfgs"][ci]]
@@ -307,6 +341,12 @@ def run_task(task, acc):
                 pay.append(float(near[0]) if near else 0.0)
             lg["payload"] = pay
         for cfg in cfgs:
+            _run_one(acc, name, cfg, lg)
+
+
+def _run_one(acc, name, cfg, lg):
+    if True:
+        if True:
             found, nexec, skipped, results = check_series(name, cfg, lg)
             acc.visit(cid(dict(fn=name, cfg=cfg, base=lg)), False, None, edges=nexec - 1, evals=nexec,
                       sample=dict(fn=name, cfg=cfg, base=lg, variants_executed=nexec - 1))
